@@ -151,7 +151,7 @@ def ugrid_expected(recipe: dict) -> tuple[list, list]:
         if table in tables:
             names.append(name)
             roles.append(role)
-    if enc.get('face_coords') == 'vars':
+    if enc.get('face_coords') in ('vars', 'coords'):
         names += ['Mesh2_face_x', 'Mesh2_face_y']
     return names, roles
 
